@@ -48,7 +48,8 @@ RULE = ("exhaustive histories over small universes (mk: 3 keys x 2 values, tuple
         "repeats, lookups interleaved; value universes int / 1-1.0-True / fresh tuples / fresh strings / bound "
         "methods / callable instances / ==-raising instances, key universes plain / fresh equal strings / large "
         "ints, decoy dict sharing the value objects, copy-constructor forks, rejected operations) plus long "
-        "histories (1000-4000 operations over 12 keys, light view after every step, full view every 97th) plus a "
+        "histories (1000-4000 operations over 12 keys, light view after every step, full view every 97th; random histories "
+        "of 20 / 40 operations: full view every 4th step) plus a "
         "small malformed stream (empty key tuple); a case is non-trivial when at least one assignment succeeded and "
         "the final dict is non-empty or an exception was observed; distinct = distinct JSON history")
 TRUSTED = [
@@ -224,6 +225,9 @@ def _expect(kind, bad_key=False):
 
 
 _TYPE_ERROR = ("TypeError",)
+# a lookup / deletion with an unhashable operand: the code raises TypeError; answering "not there" (KeyError) is
+# as good for the property — what matters is that nothing changes
+_NOT_THERE = ("TypeError", "KeyError")
 
 
 def _make_function(i):
@@ -594,17 +598,24 @@ def generate(rng, tier, scale=1):
         # ... again where equality and identity differ: every assignment hands in a NEW equal object
         for depth in (2, 3):
             for n, h in enumerate(itertools.product(sops, repeat=depth)):
-                if _stores_class_twice(h):
-                    cases.append(_case("sd", list(h), view="all", vf=("bound", "scale")[n % 2],
-                                       kf=("plain", "fresh")[(n // 2) % 2]))
+                if _stores_class_twice(h) and (depth < 3 or not quick or n % 2 == 0):
+                    cases.append(_case("sd", list(h), view="all", vf=("bound", "scale")[(n // 2) % 2],
+                                       kf=("plain", "fresh")[(n // 4) % 2]))
         for depth in (1, 2):
             for n, h in enumerate(itertools.product(ops, repeat=depth)):
                 cases.append(_case("mk", list(h), view="all", vf=("tuple", "num", "str", "scale")[n % 4],
                                    kf=("fresh", "int")[(n // 4) % 2]))
         # ... and with rejected operations mixed in
-        for depth in (1, 2, 3):
-            for h in _with_rejected(MK_REJ_BASE if depth < 3 else MK_REJ_BASE[:5] + MK_REJ_BASE[6:7], MK_REJ, depth):
+        for depth in (1, 2, 3) if not quick else (1, 2):
+            for h in _with_rejected(MK_REJ_BASE, MK_REJ, depth):
                 cases.append(_case("mk", h, view="all" if depth < 3 else "last"))
+        if quick:
+            # depth 3 for mk: the rejected operation after two ordinary ones, and between two
+            for a in MK_REJ_BASE:
+                for b in MK_REJ_BASE:
+                    for z in MK_REJ:
+                        cases.append(_case("mk", [list(a), list(b), list(z)], view="last"))
+                        cases.append(_case("mk", [list(a), list(z), list(b)], view="last"))
         for depth in (1, 2, 3) if not quick else (1, 2):
             for h in _with_rejected(SD_REJ_BASE, SD_REJ, depth):
                 cases.append(_case("sd", h, view="all"))
@@ -642,11 +653,13 @@ def generate(rng, tier, scale=1):
             cases.append(_case("sd", _rand_sd(rng, 12, rng.choice([3, 5]), n // 2, rej=0.02), view=view,
                                vf=rng.choice(SD_VF[:4]), kf=rng.choice(["plain", "fresh"])))
     nrand = (1000 if quick else 8000) * scale
+    # (histories of 20 and 40 operations: light view after every step, everything after every 4th)
     for i in range(nrand):
         length = rng.choice([3, 6, 10, 20, 40])
         route = rng.choice(["plain", "plain", "ctor"])
         cases.append(_case("mk", _rand_mk(rng, rng.choice([2, 4, 6]), rng.choice([1, 2, 4]), length, 4,
                                           rej=rng.choice([0, 0, 0.1]), fork=rng.choice([0, 0, 0, 0.05])), route,
+                           view="all" if length <= 10 else {"every": 4},
                            vf=rng.choice(MK_VF), kf=rng.choice(["plain", "fresh", "int"]),
                            decoy=rng.random() < 0.2))
     for i in range(nrand):
@@ -654,6 +667,7 @@ def generate(rng, tier, scale=1):
         route = rng.choice(["plain", "decorator"])
         cases.append(_case("sd", _rand_sd(rng, rng.choice([2, 3, 5]), rng.choice([2, 3, 4]), length,
                                           rej=rng.choice([0, 0, 0.1])), route,
+                           view="all" if length <= 10 else {"every": 4},
                            vf=rng.choice(SD_VF), kf=rng.choice(["plain", "plain", "fresh"]),
                            decoy=rng.random() < 0.2))
     # histories with the assignments that fail half-way today (each is lost for everything after that step)
@@ -716,23 +730,47 @@ def _view_level(c):
 
 
 def _items(d, u):
-    return sorted([[u.kdec(k) for k in kt], u.cls(v)] for kt, v in dict.items(d))
+    C, D = u.cls, u.kdec
+    return sorted([[[D(k) for k in kt], C(v)] for kt, v in dict.items(d)])
+
+
+_KEY_ERROR = {"err": "KeyError"}
+_ATTR_ERROR = {"err": "AttributeError"}
 
 
 def _mk_view(d, u, keys, vals, tuples):
-    K, C, D = u.key, u.cls, u.kdec
+    """everything the property names, through the public accessors (+ the two private maps); written
+    as plain loops: this is the hot spot of the whole check"""
+    C, D = u.cls, u.kdec
+    plain = u.kf == "plain"
+    get, k2k, gett = [], [], []
+    for k in keys:
+        kk = k if plain else u.key(k)
+        try:
+            get.append({"v": C(d[kk])})
+        except KeyError:
+            get.append(_KEY_ERROR)
+        try:
+            k2k.append({"t": [D(x) for x in d.key2keys(kk)]})
+        except KeyError:
+            k2k.append(_KEY_ERROR)
+    for t in tuples:
+        try:
+            gett.append({"v": C(d[tuple(t) if plain else u.ktuple(t)])})
+        except KeyError:
+            gett.append(_KEY_ERROR)
     return {
         "len": len(d),
-        "iter": sorted(C(v) for v in d._inv_dict),
+        "iter": sorted([C(v) for v in d._inv_dict]),
         "items": _items(d, u),
-        "keytuples": sorted([D(k) for k in kt] for kt in d.keys()),
-        "values": sorted(C(v) for v in d.values()),
-        "keys_dict": sorted([D(k), [D(x) for x in t]] for k, t in d._keys_dict.items()),
-        "inv_dict": sorted([C(v), [D(x) for x in t]] for v, t in d._inv_dict.items()),
-        "get": [_res(lambda: _val(C(d[K(k)]))) for k in keys],
-        "k2k": [_res(lambda: {"t": [D(x) for x in d.key2keys(K(k))]}) for k in keys],
+        "keytuples": sorted([[D(k) for k in kt] for kt in d.keys()]),
+        "values": sorted([C(v) for v in d.values()]),
+        "keys_dict": sorted([[D(k), [D(x) for x in t]] for k, t in d._keys_dict.items()]),
+        "inv_dict": sorted([[C(v), [D(x) for x in t]] for v, t in d._inv_dict.items()]),
+        "get": get,
+        "k2k": k2k,
         "v2k": [[D(x) for x in d.value2keys(u.val(v, 1))] for v in vals],
-        "gett": [_res(lambda: _val(C(d[u.ktuple(t)]))) for t in tuples],
+        "gett": gett,
     }
 
 
@@ -843,17 +881,18 @@ def _impl_mk(c):
         elif o == "bad":
             w = op[1]
             if w == "get":
-                r = _run(lambda: _val(u.cls(d[[]])), _TYPE_ERROR)
+                r = _run(lambda: _val(u.cls(d[[]])), _NOT_THERE)
             elif w == "del":
                 def f():
                     del d[[]]
-                r = _run(f, _TYPE_ERROR)
+                r = _run(f, _NOT_THERE)
             elif w == "k2k":
-                r = _run(lambda: d.key2keys([]), _TYPE_ERROR)
+                r = _run(lambda: d.key2keys([]), _NOT_THERE)
             elif w == "v2k":
-                r = _run(lambda: d.value2keys([]), _TYPE_ERROR)
+                r = _run(lambda: d.value2keys([]) and None, _NOT_THERE)
+                r = {"err": "Rejected"} if r is None else r       # "no key holds it" is an answer too
             elif w == "gett":
-                r = _run(lambda: d[(u.key(keys[0]), [])], _TYPE_ERROR)
+                r = _run(lambda: d[(u.key(keys[0]), [])], _NOT_THERE)
             else:
                 raise ValueError("unknown bad operand %r" % (op,))
         elif o == "fork":
@@ -977,15 +1016,16 @@ def _impl_sd(c):
         elif o == "bad":
             w = op[1]
             if w == "get":
-                r = _run(lambda: sd[[]], _TYPE_ERROR)
+                r = _run(lambda: sd[[]], _NOT_THERE)
             elif w == "del":
                 def f():
                     del sd[[]]
-                r = _run(f, _TYPE_ERROR)
+                r = _run(f, _NOT_THERE)
             elif w == "k2k":
-                r = _run(lambda: sd.key2keys([]), _TYPE_ERROR)
+                r = _run(lambda: sd.key2keys([]), _NOT_THERE)
             elif w == "v2k":
-                r = _run(lambda: sd.value2keys([]), _TYPE_ERROR)
+                r = _run(lambda: sd.value2keys([]) and None, _NOT_THERE)
+                r = {"err": "Rejected"} if r is None else r
             else:
                 raise ValueError("unknown bad operand %r" % (op,))
         else:
@@ -1004,7 +1044,12 @@ def _impl_sd(c):
             v["attrs"] = attrs
             v["default"] = default_now()
             v["call"] = call_now()
-            v["getattr"] = [_res(lambda: _val(u.cls(getattr(sd, u.key(k))))) for k in keys]
+            ga = v["getattr"] = []
+            for k in keys:
+                try:
+                    ga.append({"v": u.cls(getattr(sd, u.key(k)))})
+                except AttributeError:
+                    ga.append(_ATTR_ERROR)
             # StrategyDict iterates its values
             v["sditer"] = sorted(u.cls(x) for x in sd)
         if alias:
@@ -1162,13 +1207,17 @@ def compare(c, io, drv):
     # as it is today.  For such histories only the spec is authoritative (so that a repaired repo is
     # not reported as a broken correspondence); when impl and spec differ the model comparison is
     # reported as well.
+    ds = first_diff(c, io, drv, "spec")
     kinds = ("model", "spec")
-    if _model_follows_defect(c) and first_diff(c, io, drv, "spec") is None:
+    if ds is None and _model_follows_defect(c):
         kinds = ("spec",)
     for kind in kinds:
-        d = first_diff(c, io, drv, kind)
+        d = ds if kind == "spec" else first_diff(c, io, drv, kind)
         if d is not None:
             i, bad = d
+            if len(_DIFF_AT) > 50000:
+                _DIFF_AT.clear()
+            _DIFF_AT[id(c)] = min(i, _DIFF_AT.get(id(c), i)) if out else i
             op = c["ops"][i] if 0 <= i < len(c["ops"]) else None
             out.append((kind, "%s: step %d %r: impl differs from %s in %s" % (c["entry"], i, op, kind, ",".join(bad))))
     return out
@@ -1278,13 +1327,13 @@ def tally(eng, c, io):
 
 # ----------------------------------------------------------------------------
 # branch coverage of the modelled code, read off the impl's own observations (state before the
-# step + operation); only for histories observed after every step
+# step + operation); only for histories observed (at least lightly) after every step
 # ----------------------------------------------------------------------------
 _EMPTY_VIEW = {"items": [], "attrs": [], "default": "NotImplemented"}
 
 
 def _branches(c, io):
-    if "err" in io or c.get("view", "all") != "all":
+    if "err" in io or c.get("view", "all") == "last":
         return
     prev = _EMPTY_VIEW
     for op, st in zip(c["ops"], io["steps"]):
@@ -1355,23 +1404,32 @@ def _branches(c, io):
         prev = st
 
 
+_DIFF_AT = {}     # id(case) -> first step at which the impl differed (left by `compare`, read by `shrink`)
+
+
 def shrink(c):
     ops = c["ops"]
     n = len(ops)
-    # drop a suffix, then blocks, then single operations, then shorten tuples, then the dimensions
+    # cut after the step that differed, drop a suffix, then blocks, then single operations, then
+    # shorten tuples, then the dimensions
+    at = _DIFF_AT.get(id(c))
+    if at is not None and 0 <= at < n - 1:
+        yield _recase(c, ops[:at + 1])
     if n > 1:
         yield _recase(c, ops[:n // 2])
         yield _recase(c, ops[:-1])
     if n > 24:
+        # delta debugging: remove one block; long histories get few, large blocks per round
         size = n // 2
-        while size >= 4:
+        budget = 24 if n > 150 else 120
+        while size >= 4 and budget > 0:
             for start in range(0, n, size):
                 yield _recase(c, ops[:start] + ops[start + size:])
+                budget -= 1
             size //= 2
-            if n // size > 64:
-                break
-    for i in (range(n) if n <= 150 else list(range(n - 100, n)) + list(range(50))):
-        yield _recase(c, ops[:i] + ops[i + 1:])
+    if n <= 150:
+        for i in range(n):
+            yield _recase(c, ops[:i] + ops[i + 1:])
     if n <= 60:
         for i, op in enumerate(ops):
             o = op[0]
